@@ -49,7 +49,7 @@ func statesAgree(m *hist.Machine, op string) {
 func propSeq(t *rapid.T) {
 	cfg := hist.GenConfig(t, []uint{0, 100, 1000}, false)
 	m := hist.Run(t, cfg, hist.Options{
-		Weights: hist.Weights(map[string]int{"replay": 14, "swap_adv": 2, "mint": 0, "mintquote": 0, "pay": 0, "deliver": 0, "pollmint": 0,
+		Weights: hist.Weights(map[string]int{"replay": 14, "locked_spend": 3, "swap_adv": 2, "mint": 0, "mintquote": 0, "pay": 0, "deliver": 0, "pollmint": 0,
 			"melt": 5, "meltquote": 4, "resolve": 2, "restart": 2, "rotate": 1, "checkstate": 0}),
 		Owns:      []string{"C01"},
 		PropID:    "C01",
